@@ -1132,6 +1132,25 @@ def oracle_c10(ctx, focus):
             for t in (a + s + b, a, b):
                 reqs.append("text\t%s\t%s\t%s" % (lang, th, esc(t)))
             meta.append((a, s, b))
+        if lang == "fr":
+            # structured family around the ambiguous `neuf` (new / nine): a determiner two or three words before it
+            # makes the annotation pass probe its neighbours; A and B each carry one such context.
+            ctxs = []
+            for det in ("un", "le", "du", "l'", "Le", "ce"):
+                for mid in ("", "bon", "très bon"):
+                    for tens in ("vingt", "trente", "soixante", "cent", "mille", "", "quatre-vingt"):
+                        for tail in ("mai", "restera ouvert", "", "ans", "cent"):
+                            head = det if det.endswith("'") and not mid and not tens else det + " "
+                            if det.endswith("'"):
+                                head = det + ("ami " if (mid or tens) else "")
+                            ctxs.append(" ".join(x for x in [(head + " ".join(y for y in [mid, tens] if y)).strip(), "neuf", tail] if x))
+            for _ in range(600 if ctx.tier != "thorough" else 12000):
+                a, b = rng.choice(ctxs), rng.choice(ctxs)
+                s = " " + rng.choice(STRONG[lang]) + ". "
+                th = rng.choice(thrs)
+                for t in (a + s + b, a, b):
+                    reqs.append("text\t%s\t%s\t%s" % (lang, th, esc(t)))
+                meta.append((a, s, b))
         outs = run_impl(ctx, "c10" + lang, reqs)
         for i, (a, s, b) in enumerate(meta):
             n += 3
@@ -1566,6 +1585,15 @@ def oracle_c18(ctx, focus):
             for l2 in (["", "cat", "two"] if ctx.tier != "thorough" else neigh):
                 texts.append([l2, l, "o", r])
                 texts.append([l, "o", r, l2])
+    # a flagged `o` arriving while a number is still pending (after `and` / `point`) next to a small isolated number
+    smalls = ["five", "two", "third", "one"]
+    for num in numw:
+        for link in ("and", "point", ""):
+            for sep in punct + ["cat", "x", "the"]:
+                sm = rng.choice(smalls)
+                texts.append([num, link, "o" + sep if sep in punct and rng.chance(1, 2) else "o", "" if sep in punct and False else sep, sm])
+                texts.append([sm + ("," if rng.chance(1, 2) else ""), num, link, "o"])
+                texts.append([sm, sep, num, link, "o", sep, rng.choice(smalls)])
     for _ in range(1500 if ctx.tier != "thorough" else 30000):
         k = 2 + rng.below(6)
         seq = [rng.choice(neigh + ["o", "o"]) for _ in range(k)]
